@@ -41,5 +41,6 @@ finally:
 old = {}
 if os.path.exists(f'{dst}/result.json'):
     old = json.load(open(f'{dst}/result.json'))
-old.update({f'{p}:{tier}': v for p, v in res.items()})
+_sd = os.environ.get('VERIF_SEED')
+old.update({f'{p}:{tier}' + (f':seed{_sd}' if _sd else ''): v for p, v in res.items()})
 json.dump(old, open(f'{dst}/result.json', 'w'), indent=1)
